@@ -74,3 +74,27 @@ fn byte_len_complete() {
 // NOTE: a bounded second-opinion harness on XRefTable::add_entries_from itself (3 slots, 2 entries) was tried and
 // dropped: CBMC needed > 25 min and 21 GB (Vec<XRef> + the PdfError-returning path). The native tests in
 // findings/*_repro.rs are the counterexample for `newest_wins`.
+
+/// XRefTable::get on a freshly built table of n <= 3 objects, for EVERY object number (C02/C18: a number beyond the
+/// table is UnspecifiedXRefEntry, never a panic and never some other entry). BOUNDED: tables of <= 3 objects.
+#[kani::proof]
+#[kani::unwind(6)]
+fn xref_get_bounds() {
+    let n: ObjNr = kani::any();
+    kani::assume(n <= 3);
+    let t = XRefTable::new(n);
+    let id: ObjNr = kani::any();
+    let r = t.get(id);
+    match r {
+        Ok(e) => {
+            assert!(id <= n);
+            if id == n { assert!(same(&e, &XRef::Free { next_obj_nr: 0, gen_nr: 0xffff })); } else { assert!(same(&e, &XRef::Invalid)); }
+        }
+        Err(e) => {
+            assert!(id > n);
+            match e { PdfError::UnspecifiedXRefEntry { id: j } => assert!(j == id), _ => assert!(false) }
+            std::mem::forget(e);
+        }
+    }
+    std::mem::forget(t);
+}
